@@ -391,6 +391,7 @@ func init() {
 					}
 					c.Distinct("all", c.ID)
 					w.ShapeInvarianceOK(c, bc.ID, []File{{"c.yaml", cfg.YAML()}}, true)
+					w.NameInvariance(c, bc.ID, &cfg)
 				})
 			}
 			runBatches(w, "c02", cases, 48, behaviourOracle)
